@@ -308,3 +308,4 @@ impl IngredientImpl<KT> {
 pub(crate) fn identity(ing: u32, hash: u64, disambiguator: u32) -> Identity {
     Identity { ingredient_index: IngredientIndex::new(ing), hash, disambiguator: Disambiguator(disambiguator) }
 }
+
